@@ -1,4 +1,6 @@
 import H4.VData
+import H4.Format
+import H4.Gen.Fn.Vio
 import H4.Driver.Util
 namespace H4.Driver
 open H4.VData
@@ -26,9 +28,57 @@ def showFields (w : WList) : String :=
   if w.fields.isEmpty then "-" else
   ",".intercalate (w.fields.map fun f => s!"{f.name}:{f.type}:{f.order}:{f.isize}:{f.esize}")
 
+/-! `packvs`: the `DFTAG_VH` record of `H4.Format.vpackvs` for a hand-built VDATA.  `vpackvs` as TRANSLATED from the current C text
+    of vio.c (`H4.Gen.Fn.Vio`, gen/c2lean.py) is run on the same arguments: when its record, `*size` or the bytes of `buf` behind
+    the record differ from the hand-written model (or the translated code reports undefined behaviour / fuel exhaustion) the
+    answer carries a ` GEN=…` suffix, which the comparison with the real library's answer reports as a DIFF (pattern: `GenChunk`
+    in Driver/Chunk.lean).  This validates the translator by differential testing against the compiled C. -/
+namespace GenVs
+open H4.Gen.Fn.Vio
+def il (l : List Nat) : List Int := l.map Int.ofNat
+def cstr (b : List UInt8) : List Int := b.map (fun x => (x.toNat : Int)) ++ [0]
+def toBytes (l : List Int) : List UInt8 := l.map fun x => UInt8.ofNat x.toNat
+
+def parseField (s : String) : Option H4.Format.VField :=
+  match s.splitOn ":" with
+  | [t, i, o, d, n] => do some ⟨← t.toInt?, ← i.toNat?, ← o.toNat?, ← d.toNat?, ← parseHex n⟩
+  | _ => none
+def parseFields (s : String) : Option (List H4.Format.VField) :=
+  if s == "-" then some [] else (s.splitOn ",").mapM parseField
+def parseAttr (s : String) : Option H4.Format.VAttr :=
+  match s.splitOn ":" with
+  | [f, t, r] => do some ⟨← f.toInt?, ← t.toNat?, ← r.toNat?⟩
+  | _ => none
+def parseAttrs (s : String) : Option (List H4.Format.VAttr) :=
+  if s == "-" then some [] else (s.splitOn ",").mapM parseAttr
+
+def pack (v : H4.Format.VH) (model : List UInt8) : String :=
+  let sentinel : List Int := List.replicate 4 170
+  let buf : List Int := List.replicate model.length 85 ++ sentinel
+  -- named arguments: the translator orders the parameters by first use in the C text
+  let s := vpackvs (fuel := max v.fields.length v.attrs.length + 1) (vs_interlace := v.interlace) (vs_nvertices := v.nvert)
+    (vs_wlist_ivsize := v.ivsize) (vs_wlist_n := v.fields.length) (vs_wlist_type := v.fields.map (·.type))
+    (vs_wlist_isize := il (v.fields.map (·.isize))) (vs_wlist_off := il (v.fields.map (·.off)))
+    (vs_wlist_order := il (v.fields.map (·.order))) (vs_wlist_name := v.fields.map (fun f => cstr f.name))
+    (vs_vsname := cstr v.name) (vs_vsclass := cstr v.cls) (vs_extag := v.extag) (vs_exref := v.exref) (vs_version := v.version)
+    (vs_more := v.more) (vs_flags := v.flags) (vs_nattrs := v.attrs.length) (vs_alist_findex := v.attrs.map (·.findex))
+    (vs_alist_atag := il (v.attrs.map (·.atag))) (vs_alist_aref := il (v.attrs.map (·.aref))) (buf := buf) (size := [0])
+  if s.ub then " GEN=ub" else if s.oof then " GEN=oof"
+  else if s.buf == model.map (fun x => (x.toNat : Int)) ++ sentinel && s.size == [(model.length : Int)] then ""
+  else s!" GEN={toHex (toBytes (s.buf.take (s.size.getD 0 0).toNat))}/{s.size.getD 0 0}/tail={toHex (toBytes (s.buf.drop model.length))}"
+end GenVs
+
 def stepVs (st : VsState) (args : List String) : VsState × String :=
   let v := st.v
   match args with
+  | ["packvs", il, nv, ivs, fields, nm, cl, extag, exref, ver, more, flags, attrs] =>
+    match il.toInt?, nv.toInt?, ivs.toNat?, GenVs.parseFields fields, parseHex nm, parseHex cl, extag.toNat?, exref.toNat?, ver.toInt?,
+        more.toInt?, flags.toNat?, GenVs.parseAttrs attrs with
+    | some il, some nv, some ivs, some fields, some nm, some cl, some extag, some exref, some ver, some more, some flags, some attrs =>
+      let h : H4.Format.VH := ⟨il, nv, ivs, fields, nm, cl, extag, exref, ver, more, flags, attrs⟩
+      let model := H4.Format.vpackvs h
+      (st, toHex model ++ GenVs.pack h model)
+    | _, _, _, _, _, _, _, _, _, _, _, _ => (st, "bad-op")
   | ["vtbuf", n] => ({ st with vtb := n.toNat?.getD 0 }, "ok")
   | ["fdefine", name, t, order] =>
     match parseNat t, parseNat order with
